@@ -153,6 +153,7 @@ def check(ctx):
     ctx.rule("R7", "the second-phase scope question is answered from the live binding stack alone: the query methods store nothing on the transformer and read no transformer state that changes during the walk except that stack", floor=2)
     ctx.rule("R8", "the assignment-target check, whose SyntaxError is what sends `cmd --opt=value` to the recovery loop, reaches every statement position of the tree: its visitor traverses every statement-holding field the interpreter's grammar has (body, orelse, finalbody, handlers, cases ...) and every container visitor it overrides goes on into the children", floor=2)
     ctx.rule("R9", "sibling phases agree on window arithmetic: wherever a column taken from one physical line is used as a position in the joined logical line (get_logical_line), the lengths of the preceding physical lines are added when the logical line spans several", floor=2)
+    ctx.rule("R10", "a cheap pre-check never answers 'no break here' for a text in which the scan would find one: the pattern tried before the token scan of find_next_break matches, as a bare substring, every spelling of every token type the scan stops at (END_TOK_TYPES) - the text it sees starts at the parser's error column, so a keyword can sit at its very beginning", floor=6)
     ctx.rule("R6", "line tables indexed by the parser's line numbers are split the way the parser counts lines (\\n only)", floor=2)
     ctx.rule("R5", "every verdict of the open-triple-quote scanner comes out of its quote- and comment-aware scan (or is 'nothing open' when no marker occurs at all); the line joiners ask only the scanner", floor=4)
     ctx.rule("R4", "the line returned by tools.subproc_toks is built only from slices of the source line and the literals '![' and ']'", floor=3)
@@ -490,6 +491,7 @@ def check(ctx):
     _scope_queries(ctx)
     _context_check_reach(ctx)
     _window_offsets(ctx)
+    _prefilter_complete(ctx)
 
 
 def _window_offsets(ctx):
@@ -660,6 +662,69 @@ def _scope_queries(ctx):
         foreign = sorted({a for a, _ in rd if a != stack and a in varying})
         ctx.ob("R7", st, f"apart from the binding stack `self.{stack}` the query reads only per-walk constants", not foreign, key=f"{name}|scope-query-reads-varying-state", where=loc(meths[name]), detail=f"reads self.{foreign[0]}, which other methods change during the walk" if foreign else None)
 
+
+
+def _prefilter_complete(ctx):
+    import keyword
+    import re._parser as sre
+    from ..engine.fold import Folder, NotConstant
+    from .c18 import spelling_table
+
+    tl = ctx.repo.module(TL)
+    fnb = tl.func("find_next_break")
+    st = f"{TL}:find_next_break"
+    # the pre-check: `if <RX>.search(<text>) is None: return None` before the scan
+    pre = None
+    for n in walk_local(fnb):
+        if isinstance(n, ast.If) and any(isinstance(b_, ast.Return) for b_ in n.body):
+            for c in ast.walk(n.test):
+                if isinstance(c, ast.Call) and isinstance(c.func, ast.Attribute) and c.func.attr in ("search", "match", "fullmatch", "findall") and isinstance(c.func.value, ast.Name) and c.func.value.id in tl.assigns:
+                    pre = c
+    if pre is None:
+        ctx.ob("R10", st, "no regular-expression pre-check in front of the token scan (nothing to get wrong)", True, key="find_next_break|no-prefilter")
+        return
+    f = Folder(tl)
+    try:
+        stops = set(f.name("END_TOK_TYPES"))
+        comp = next((x for x in ast.walk(tl.assigns[pre.func.value.id][-1].value) if isinstance(x, ast.Call) and call_name(x) == "re.compile"), None)
+        pattern = f.fold(comp.args[0], {}) if comp is not None and comp.args else None
+    except NotConstant as e:
+        raise AnalysisError(str(e))
+    if not isinstance(pattern, str) or not stops:
+        raise AnalysisError(f"{st}: cannot read the pre-check pattern / END_TOK_TYPES")
+    ctx.ob("R10", st, f"`{short(pre, 50)}` looks anywhere in the text (search)", pre.func.attr in ("search", "findall"), key="find_next_break|prefilter-anchored", where=loc(pre))
+    # literal alternatives of the pattern: alternatives made of literal characters only match as bare substrings
+    lits = set()
+
+    def alts(items):
+        items = list(items)
+        if len(items) == 1 and str(items[0][0]) == "SUBPATTERN":
+            return alts(items[0][1][3])
+        if len(items) == 1 and str(items[0][0]) == "BRANCH":
+            out = []
+            for b_ in items[0][1][1]:
+                out += alts(b_)
+            return out
+        return [items]
+
+    for alt in alts(sre.parse(pattern)):
+        if alt and all(str(op) == "LITERAL" for op, _ in alt):
+            lits.add("".join(chr(av) for _, av in alt))
+        elif len(alt) == 1 and str(alt[0][0]) == "IN" and all(str(op) == "LITERAL" for op, _ in alt[0][1]):
+            lits |= {chr(av) for _, av in alt[0][1]}
+    inv = {}
+    for sp, types in spelling_table(ctx.repo).items():
+        for ty in types:
+            inv.setdefault(ty, set()).add(sp)
+    for ty in sorted(stops):
+        sps = set(inv.get(ty, set()))
+        if ty.lower() in keyword.kwlist:
+            sps.add(ty.lower())
+        if not sps:
+            raise AnalysisError(f"{st}: no spelling known for the stop token {ty}")
+        for sp in sorted(sps):
+            ok = any(l_ and l_ in sp for l_ in lits)
+            ctx.ob("R10", st, f"the pre-check pattern matches the spelling {sp!r} of {ty} wherever it stands (a literal alternative, no context demanded)", ok, key=f"find_next_break|prefilter-misses|{sp}", where=loc(pre), detail=f"literal alternatives: {sorted(lits)}" if not ok else None)
 
 META = {
     "technique": "static analysis: call-graph reachability from Execer.parse, loop-variant catalogue checked by CFG cycle queries (no cycle through the loop head without a progress statement), guard facts on the recursion, raise-provenance, string-provenance of the wrapper",
